@@ -47,7 +47,7 @@ macro_rules! subs {
     ($( ($name:literal, $m:ident, $quick:expr, $thorough:expr, $chunks:expr) ),* $(,)?) => {
         pub fn child_main(spec: &str) -> ! {
             driver::child_main(spec, &[ $( ($name, child_entry::<$m::Cfg>) ),* , ("literal", child_entry::<explicit::Cfg>), ("thresholds", child_entry::<kmeans::Cfg>),
-                ("boundary_seeds_kmeans", child_entry::<kmeans::Cfg>), ("boundary_seeds_linear", child_entry::<linear::Cfg>),
+                ("boundary_seeds_kmeans", child_entry::<kmeans::Cfg>), ("degenerate_kmeans", child_entry::<kmeans::Cfg>), ("boundary_seeds_linear", child_entry::<linear::Cfg>),
                 ("boundary_seeds_reduction", child_entry::<reduction::Cfg>), ("boundary_seeds_preprocess", child_entry::<preprocess::Cfg>) ])
         }
         fn all_subs() -> Vec<Box<dyn vengine::SubCheck>> {
@@ -124,6 +124,7 @@ macro_rules! fixed_sub {
 pub fn property() -> Property {
     let mut subs = all_subs();
     subs.push(thresholds_sub());
+    subs.push(fixed_sub!("degenerate_kmeans", kmeans, kmeans::degenerate_fixed_cases));
     subs.push(fixed_sub!("boundary_seeds_kmeans", kmeans, kmeans::boundary_seed_cases));
     subs.push(fixed_sub!("boundary_seeds_reduction", reduction, reduction::boundary_seed_cases));
     subs.push(fixed_sub!("boundary_seeds_linear", linear, linear::boundary_seed_cases));
@@ -156,6 +157,7 @@ pub fn property() -> Property {
             "tree cases use per-class weights 1 + c/1024 (exact f32 totals) or, in half of the cases, real-valued non-dyadic f32 sample weights through with_weights (inexact class totals: any hash-ordered sum over classes shows); isotonic regression gets real-valued weights in every other case".into(),
             "rng seeds: a third of the generated seeds are boundary values {0,1,2,u32::MAX,u64::MAX-1,u64::MAX}; in addition every boundary seed goes through K-means, the randomly initialised GMM, FastICA (random_state = seed as usize), both random projections, FTRL, shuffle and bootstrap in every run (enum sub-checks boundary_seeds_*)".into(),
             "near ties: a tree class whose leaf holds 3..5 classes with weighted totals 1, 1+s, 1+2s, ... (s in 3e-7..1.2e-6 relative), Gaussian NB queries 1e-9..1e-5 off the exact tie, multinomial NB classes differing in one count out of thousands; the oracle is unchanged (bit identity), these classes only make tolerance-based tie handling visible".into(),
+            "degenerate inputs (small n): k-means / mini-batch / GMM on fewer distinct rows than clusters, exactly k distinct rows, all rows equal, a single sample, a single feature, constant columns (3/9 of the random k-means cases + 12 fixed cases in every run); few-distinct-rows data also for DBSCAN / OPTICS / hierarchical / kernels, decision trees and naive Bayes; errors and panics are outcomes and have to repeat exactly".into(),
             "size-threshold strata: k in {101,128} components (GMM by k-means / random init / builder defaults, K-means Random / ++; 8 fixed cases in every run plus ~1/6 of the random k-means cases; GMM with max 3 EM steps, tolerance 1e6, reg_covar 1e-2, one restart), > 100 hierarchical clusters, n in {2^k-1, 2^k, 2^k+1} for k-means, 65..70 feature columns for decompositions and numeric transformers".into(),
             format!("tree impurity differences are recognised as 'rounding of a reordered f32 sum' only below {:e}", tree_bayes::F32_REORDER_GAP),
             "Labels::labels()/one_vs_all() (order of a returned Vec follows a HashSet) are dataset utilities, not estimators, and are not asserted".into(),
